@@ -4,6 +4,7 @@ import (
 	"bytes"
 	"encoding/json"
 	"fmt"
+	"math/rand"
 	"regexp"
 	"strconv"
 	"strings"
@@ -34,37 +35,52 @@ type rangeVec struct {
 
 var bigSpellings = []string{"9223372036854775808", "1000000000000000000000000000000"}
 
+// rangeHuge is RangeGet!HUGE: a number that fits in 63 bits and lies beyond every object
+const rangeHuge = 1000000
+
+var hugeSpellings = []string{"9223372036854775807", "4294967296", "9223372036854775806", "2147483648"}
+
 func numSpell(n int64, variant int) string {
 	if n == -1 {
 		return bigSpellings[variant%len(bigSpellings)]
 	}
+	if n == rangeHuge {
+		return hugeSpellings[variant%len(hugeSpellings)]
+	}
 	return strconv.FormatInt(n, 10)
+}
+
+func rangeSpecial(r rangeR) int {
+	n := 1
+	if r.A == -1 || r.B == -1 {
+		n = len(bigSpellings)
+	}
+	if r.A == rangeHuge || r.B == rangeHuge {
+		n = len(hugeSpellings)
+	}
+	return n
 }
 
 // rangeStrings renders a structured range to its concrete spellings.
 // present=false means "send no Range header".
 func rangeStrings(r rangeR) (out []string, present bool) {
 	a0, b0 := numSpell(r.A, 0), numSpell(r.B, 0)
-	a1, b1 := numSpell(r.A, 1), numSpell(r.B, 1)
 	switch r.Kind {
 	case "absent":
 		return []string{""}, false
 	case "empty":
 		return []string{""}, true
 	case "ab":
-		out = []string{"bytes=" + a0 + "-" + b0}
-		if r.A == -1 || r.B == -1 {
-			out = append(out, "bytes="+a1+"-"+b1)
+		for v := 0; v < rangeSpecial(r); v++ {
+			out = append(out, "bytes="+numSpell(r.A, v)+"-"+numSpell(r.B, v))
 		}
 	case "a_":
-		out = []string{"bytes=" + a0 + "-"}
-		if r.A == -1 {
-			out = append(out, "bytes="+a1+"-")
+		for v := 0; v < rangeSpecial(r); v++ {
+			out = append(out, "bytes="+numSpell(r.A, v)+"-")
 		}
 	case "_n":
-		out = []string{"bytes=-" + a0}
-		if r.A == -1 {
-			out = append(out, "bytes=-"+a1)
+		for v := 0; v < rangeSpecial(r); v++ {
+			out = append(out, "bytes=-"+numSpell(r.A, v))
 		}
 	case "multi":
 		out = []string{"bytes=" + a0 + "-" + a0 + "," + b0 + "-" + b0, "bytes=" + a0 + "-" + b0 + ", " + a0 + "-"}
@@ -191,7 +207,7 @@ func rangeFingerprint(l rangeLine) (string, string) {
 }
 
 func C13(c *core.Ctx, replay string) {
-	c.Rule = "TLC enumerates every (object size 0..4) x (structured Range form with numbers 0..5 and an overflowing number); each vector is rendered to its concrete spellings and executed (a) against backend.ParseGetObjectRange and (b) as a real GET; each observation is one trace line validated by TLC against RangeGet!Allowed. Non-trivial: a vector whose Range header is present."
+	c.Rule = "TLC enumerates every (object size 0..4) x (structured Range form with numbers 0..5, an overflowing number and a huge number that still fits in 63 bits - 2^31, 2^32, 2^63-2, 2^63-1); each vector is rendered to its concrete spellings and executed (a) against backend.ParseGetObjectRange and (b) as a real GET; each observation is one trace line validated by TLC against RangeGet!Allowed. 16 clients then read random intervals of six objects with different contents side by side. Non-trivial: a vector whose Range header is present."
 	c.Assumptions = []string{"object bytes are pairwise distinct for sizes <= 4 so a body's position in the object is unambiguous",
 		"suffix ranges may be either supported (206, last n bytes) or treated as unsupported (200, whole object)",
 		"numbers that overflow int64 may be answered 416 or treated as malformed (200, whole object)"}
@@ -284,10 +300,21 @@ func C13(c *core.Ctx, replay string) {
 			}
 			resp := GetObject(cl, "rng", fmt.Sprintf("s%d", size), hdrs...)
 			if resp.Err != nil {
-				c.Inconclusive("GET failed: %v", resp.Err)
-				return
+				// once more; a request that is never answered is an observation (status 0),
+				// provided the gateway still serves the same object without a Range header
+				resp = GetObject(cl, "rng", fmt.Sprintf("s%d", size), hdrs...)
 			}
-			hl := rangeLine{Size: size, R: r, Kind: "http", Str: s, O: observeRange(obj, resp, allowed)}
+			var ob rangeObs
+			if resp.Err != nil {
+				if ctl := GetObject(cl, "rng", fmt.Sprintf("s%d", size)); ctl.Err != nil || ctl.Status != 200 {
+					c.Inconclusive("GET failed: %v (control: %v)", resp.Err, ctl)
+					return
+				}
+				ob = rangeObs{Status: 0, CR: []int64{}, CLen: -1, BLo: -2, BHi: -2}
+			} else {
+				ob = observeRange(obj, resp, allowed)
+			}
+			hl := rangeLine{Size: size, R: r, Kind: "http", Str: s, O: ob}
 			lines = append(lines, hl)
 			meta = append(meta, hl)
 			nt := ""
@@ -319,7 +346,9 @@ func C13(c *core.Ctx, replay string) {
 	for i := 0; i < nrand; i++ {
 		size := sizes[c.Rng.Intn(len(sizes))]
 		pick := func() int64 {
-			switch c.Rng.Intn(7) {
+			switch c.Rng.Intn(8) {
+			case 7:
+				return rangeHuge
 			case 0:
 				return 0
 			case 1:
@@ -360,6 +389,68 @@ func C13(c *core.Ctx, replay string) {
 	}
 	if c.NumViolations() > 0 {
 		return
+	}
+	// ranged reads side by side: 16 clients read small and large intervals of objects
+	// with different contents at the same time; every reply is judged like the others
+	if replay == "" {
+		const nobj = 6
+		var cobj [nobj][]byte
+		for i := range cobj {
+			cobj[i] = Content(fmt.Sprintf("rngc%d-%d", i, c.Seed), 4096+i*9000)
+			if r := PutObject(cl, "rng", fmt.Sprintf("c%d", i), cobj[i]); !r.OK() {
+				c.Inconclusive("put object: %v", r)
+				return
+			}
+		}
+		per := c.Pick(250, 2500)
+		type res struct {
+			l   rangeLine
+			err error
+		}
+		out := make(chan res, 64)
+		for w := 0; w < 16; w++ {
+			rng := rand.New(rand.NewSource(c.Seed*131 + int64(w)))
+			go func() {
+				for i := 0; i < per; i++ {
+					oi := rng.Intn(nobj)
+					obj := cobj[oi]
+					size := int64(len(obj))
+					a := rng.Int63n(size)
+					n := int64(1 + rng.Intn(3000))
+					if rng.Intn(5) == 0 {
+						n = 1 + rng.Int63n(size)
+					}
+					r := rangeR{Kind: "ab", A: a, B: a + n - 1}
+					str := fmt.Sprintf("bytes=%d-%d", r.A, r.B)
+					hi := r.B
+					if hi >= size {
+						hi = size - 1
+					}
+					resp := GetObject(cl, "rng", fmt.Sprintf("c%d", oi), s3c.KV{K: "Range", V: str})
+					if resp.Err != nil {
+						out <- res{err: resp.Err}
+						continue
+					}
+					out <- res{l: rangeLine{Size: size, R: r, Kind: "http", Str: str, O: observeRange(obj, resp, [][2]int64{{a, hi}})}}
+				}
+			}()
+		}
+		nerr := 0
+		for i := 0; i < 16*per; i++ {
+			x := <-out
+			if x.err != nil {
+				nerr++
+				continue
+			}
+			lines = append(lines, x.l)
+			meta = append(meta, x.l)
+			c.Eval(fmt.Sprintf("conc|%d|%s", x.l.Size, x.l.Str))
+		}
+		c.Extra["concurrent_ranged_reads"] = 16*per - nerr
+		if nerr > 16*per/50 {
+			c.Inconclusive("%d of %d concurrent ranged reads got no reply", nerr, 16*per)
+			return
+		}
 	}
 	c.Sample(meta[len(meta)/2])
 
